@@ -43,6 +43,7 @@ def build(td: Path):
     (td / "sub").mkdir(parents=True)
     (td / "src.dict").write_text(SRC)
     (td / "sub" / "inc").write_text(INC)
+    (td / "src2.json").write_text('{"load case": {"wind speed": {"v": 12.5}, "x": 1}, "plain": {"y": 2}, "n": {"m": {"z": 3}}}')
 
 
 def snapshot(td: Path) -> dict:
@@ -50,7 +51,7 @@ def snapshot(td: Path) -> dict:
 
 
 def argv_of(o: dict) -> list[str]:
-    a = ["src.dict"]
+    a = [o.get("src", "src.dict")]
     if o["I"]:
         a.append(o["Iflag"])
     if o["order"]:
@@ -73,13 +74,7 @@ def argv_of(o: dict) -> list[str]:
 def api_kwargs(ctx: Ctx, o: dict) -> dict:
     """the arguments `apiArgs` (Lean, regenerated from main()) prescribes; the scope goes through validateScope of the model"""
     includes, comments = (not o["I"]), (not o["C"])
-    scope = None
-    if o["scope"] is not None:
-        if ctx.oracle_only:
-            from dictIO.cli.dict_parser import _validate_scope
-            scope = _validate_scope(o["scope"])
-        else:
-            scope = o["_mscope"]
+    scope = spec.validate_scope(o["scope"])      # the documented reading (independent of the code under test)
     return {"includes": includes, "mode": o["mode"] or "w", "order": o["order"], "comments": comments, "scope": scope, "output": o["output"] or "cpp"}
 
 
@@ -114,14 +109,14 @@ def run_cli_inprocess(td: Path, argv: list[str]):
     return code, err.getvalue()
 
 
-def run_api(td: Path, kw: dict):
+def run_api(td: Path, kw: dict, src: str = "src.dict"):
     from dictIO import DictParser
     old_cwd = os.getcwd()
     try:
         os.chdir(td)
         reset_globals()
         try:
-            DictParser.parse(Path("src.dict"), **kw)
+            DictParser.parse(Path(src), **kw)
             return 0
         except SystemExit as e:
             return e.code if isinstance(e.code, int) else 1
@@ -141,6 +136,8 @@ def process(ctx: Ctx, cases: list[dict]) -> None:
             r = ctx.driver([{"op": "validate_scope", "s": s}])[0]
             mscope[s] = None if r == "none" else [dec(x) for x in r]
             iv = _validate_scope(s)
+            if not same(mscope[s], spec.validate_scope(s)):
+                ctx.disagree("validateScope (model) vs documented reading", {"scope": s}, enc(mscope[s]) if mscope[s] is not None else None, enc(spec.validate_scope(s)))
             if not same(mscope[s], iv):
                 ctx.disagree("_validate_scope", {"scope": s}, enc(mscope[s]) if mscope[s] is not None else None, enc(iv) if iv is not None else None)
     for c in cases:
@@ -158,7 +155,7 @@ def process(ctx: Ctx, cases: list[dict]) -> None:
                     code, err = p.returncode, p.stderr
                 else:
                     code, err = run_cli_inprocess(t1, argv)
-                acode = run_api(t2, api_kwargs(ctx, o))
+                acode = run_api(t2, api_kwargs(ctx, o), o.get("src", "src.dict"))
                 s1, s2 = snapshot(t1), snapshot(t2)
                 s1.pop("run.log", None)
                 if "Traceback" in err and not (isinstance(acode, str) and acode.startswith("raises:")):
@@ -236,6 +233,9 @@ def run(ctx: Ctx) -> None:
         if rng.random() < 0.3:
             o["Iflag"] = "--ignore-includes"; o["Cflag"] = "--ignore-comments"; o["oflag"] = "--output"
         cases.append({"kind": "run", "o": o, "subprocess": (ctx.tier == "quick" and i < 8) or (ctx.tier == "thorough" and i % 40 == 0)})
+    for sc in ("load case", "['load case']", "['load case', 'wind speed']", "[ n , m ]", "[n,m]", "plain", '["load case"]'):
+        cases.append({"kind": "run", "subprocess": False, "o": {"src": "src2.json", "I": False, "Iflag": "-I", "order": False, "C": False, "Cflag": "-C", "mode": None,
+                                                               "output": rng.choice([None, "json"]), "oflag": "-o", "scope": sc, "verb": None, "log": False}})
     for argv, sub in ((["nope.dict"], True), (["nope.dict", "-o", "json"], False), (["src.dict", "--mode", "x"], True), (["src.dict", "-o", "yaml"], False),
                       (["src.dict", "--log-level", "LOUD"], False), ([], False), (["src.dict", "--unknown"], False)):
         cases.append({"kind": "bad", "argv": argv, "subprocess": sub})
